@@ -8,6 +8,9 @@
 //!     comma-separated StackFrame::parameter_size of the frames under the callee, innermost first ("-" = None);
 //!     the grand-callee and its parameter size reach STACK WIN evaluation through the real
 //!     walk_stack -> x86::get_caller_frame -> CfiStackWalker::from_ctx_and_args
+//!  G|ctxregs|stackbase|stackhex|funcs|rec|rec|...
+//!     a WHOLE x86 walk_stack from the context frame; funcs = ";"-separated "addr size paramsize" FUNC records ("-" = none);
+//!     answer: `W;eip,esp,ebp;eip,esp,ebp;...` = the leading frames produced by call frame info
 //!  rec = "W ty addr size prolog epilog params saved locals maxstack hasprog rest..."  (decimal numbers,
 //!        ty and hasprog single characters; printed in hex as a STACK WIN line)
 //!      | "C addr size rules..."   (a STACK CFI INIT line)
@@ -86,6 +89,20 @@ fn run(line: &str) -> String {
                 text.push_str(&rec_text(r));
             }
             real_walk_from(&below, &regs, f[3], f[4].parse().expect("stackbase"), &unhex(f[5]), &text)
+        }
+        "G" => {
+            let regs = parse_regs(f[1]);
+            let mut text = String::new();
+            if f[4] != "-" {
+                for (i, fu) in f[4].split(';').enumerate() {
+                    let p: Vec<u64> = fu.split(' ').map(|x| x.parse::<u64>().expect("func num")).collect();
+                    text.push_str(&format!("FUNC {:x} {:x} {:x} fn{}\n", p[0], p[1], p[2], i));
+                }
+            }
+            for r in &f[5..] {
+                text.push_str(&rec_text(r));
+            }
+            real_walk_all(&regs, f[2].parse().expect("stackbase"), &unhex(f[3]), &text)
         }
         _ => panic!("bad kind"),
     }
